@@ -121,6 +121,8 @@ class GenericCallAdapter(Adapter):
         ]
 
     def assign(self, old_value, old_node, new_value):
+        from .._snapshot.undecided_value import contains_unmanaged
+
         if old_node is None or not isinstance(old_node, ast.Call):
             result = yield from self.value_assign(old_value, old_node, new_value)
             return result
@@ -193,11 +195,9 @@ class GenericCallAdapter(Adapter):
         result_kwargs = {}
         for kw in old_node.keywords:
             if kw.arg not in new_kwargs or new_kwargs[kw.arg].is_default:
-                if isinstance(
-                    self.argument(old_value, kw.arg), Unmanaged
-                ) or isinstance(kw.value, ast.JoinedStr):
-                    # unmanaged values are never changed
-                    # and are still part of the value
+                if contains_unmanaged(self.argument(old_value, kw.arg), kw.value):
+                    # unmanaged values (and arguments which contain them)
+                    # are never changed and are still part of the value
                     result_kwargs[kw.arg] = self.argument(old_value, kw.arg)
                     continue
 
